@@ -62,7 +62,7 @@ MUTANTS = [
     ("C13-nd-fill-coerce", ["C13", "C03"], S + "histogram_nd.py", "        self._coerce_dtype(type(weight))\n        value_array = np.asarray(value)", "        value_array = np.asarray(value)", "ND fill with a float weight truncates into an integer histogram"),
     ("C13-div-no-float", ["C13"], S + "histogram_base.py", "        elif np.isscalar(other):\n            self._coerce_dtype(np.float64)\n            self.frequencies = self.frequencies / other", "        elif np.isscalar(other):\n            self.frequencies = self.frequencies / other", "division does not promote the reported dtype to float"),
     ("C14-sum2-squared-weight", ["C14"], S + "histogram1d.py", "                    sum2=self.statistics.sum2 + weight * value**2,", "                    sum2=self.statistics.sum2 + weight**2 * value**2,", "fill accumulates sum2 with the squared weight"),
-    ("C14-minmax-swapped", ["C14", "C05"], S + "statistics.py", "            min=min(self.min, other.min),\n            max=max(self.max, other.max),", "            min=min(self.min, other.max),\n            max=max(self.max, other.min),", "statistics of a sum mix up min and max"),
+    ("C14-minmax-swapped", ["C14"], S + "statistics.py", "            min=min(self.min, other.min),\n            max=max(self.max, other.max),", "            min=min(self.min, other.max),\n            max=max(self.max, other.min),", "statistics of a sum mix up min and max"),
     ("C14-median-kept", ["C14"], S + "histogram1d.py", "                    median=np.nan,\n                )\n            except OverflowError:", "                )\n            except OverflowError:", "median kept after fill"),
     ("C15-atan2-swapped", ["C15"], S + "special_histograms.py", "        result[..., 1] = np.arctan2(value[..., 1], value[..., 0]) % (2 * np.pi)\n        return result", "        result[..., 1] = np.arctan2(value[..., 0], value[..., 1]) % (2 * np.pi)\n        return result", "polar phi = atan2(x, y)"),
     ("C15-no-fold", ["C15"], S + "special_histograms.py", "        return np.arctan2(value[..., 1], value[..., 0]) % (2 * np.pi)", "        return np.arctan2(value[..., 1], value[..., 0])", "azimuthal phi not folded into [0, 2 pi]"),
@@ -73,7 +73,7 @@ MUTANTS = [
     ("C17-accessor-weights", ["C17"], S + "compat/pandas.py", "            weights = self._df[weights]\n", "            weights = self._df[weights].values[::-1]\n", "DataFrame accessor aligns the weight column in reverse"),
     ("C17-xarray-overflow", ["C17"], S + "compat/xarray.py", '        "overflow": h1.overflow,\n', '        "overflow": h1.underflow,\n', "xarray representation stores the underflow as overflow"),
     ("C17-polars-weights-mask", ["C17"], S + "compat/polars.py", "    return extract_weights(array, array_mask=array_mask)  # type: ignore", "    return extract_weights(array, array_mask=None)  # type: ignore", "polars Series weights not masked with the NaN positions"),
-    ("C18-iadd-before-check", ["C18"], S + "histogram_base.py", "                self.frequencies = self.frequencies + other.frequencies\n                self.errors2 = self.errors2 + other.errors2\n                self._missed += other._missed", "                self._missed += other._missed\n                self.frequencies = self.frequencies + other.frequencies\n                self.errors2 = self.errors2 + other.errors2", "in-place addition touches the missed values before the contents are validated"),
+    ("C18-isub-missed-first", ["C18"], S + "histogram_base.py", "                self._coerce_dtype(other.dtype)\n                self.frequencies = (", "                self._coerce_dtype(other.dtype)\n                self._missed -= other._missed\n                self.frequencies = (", "in-place subtraction changes the missed values before the (possibly refused) contents are assigned"),
     ("C18-setdtype-before-check", ["C18", "C13"], S + "histogram_base.py", "        value, type_info = self._eval_dtype(value)\n        if value == self._dtype:\n            return\n", "        value, type_info = self._eval_dtype(value)\n        if value == self._dtype:\n            return\n        old_dtype, self._dtype = self._dtype, value\n        self._dtype = old_dtype if np.can_cast(old_dtype, value) else value\n", "set_dtype records the new dtype before the admissibility check"),
     ("C20-bar-centres", ["C20"], S + "plotting/matplotlib.py", "    ax.bar(\n        h1.bin_left_edges,\n        data,", "    ax.bar(\n        h1.bin_centers,\n        data,", "bars drawn from the bin centres"),
     ("C20-errors-not-divided", ["C20"], S + "plotting/common.py", "        data = histogram.errors / histogram.bin_sizes", "        data = histogram.errors", "density error bars not divided by the bin size"),
